@@ -239,6 +239,13 @@ def check(rep, F, tier, replay=None):
                             c = str(x[2])
                             if "ignore_leftover_bytes" in c and "Not" in c and "TrailingData" in str(x[3]):
                                 tr = True
+                        if x[0] == "match":
+                            for pat2, g2, b2 in x[3]:
+                                if g2 is not None and "ignore_leftover_bytes" in str(g2) and "Not" in str(g2) and "TrailingData" in str(b2):
+                                    tr = True  # `Ordering::Greater if !ignore_leftover_bytes => Err(TrailingData)`
+                    if ne and not tr and "TrailingData" in txt and "ignore_leftover_bytes" in txt:
+                        rep.lost("the strict parser's %s arm mentions TrailingData and ignore_leftover_bytes in a shape STRICT does not read" % ctor)
+                        continue
                     if not ne or not tr:
                         rep.violation("STRICT", "%s|%s" % (ctor, "not-enough" if not ne else "trailing"), "the strict parser's %s arm lacks the %s exit: %s input would be accepted" % (ctor, "NotEnough" if not ne else "TrailingData (unless lenient)", "truncated" if not ne else "over-long"), {})
     # every stand-alone Byron entry point: the function that owns the cursor compares consumed and total length
